@@ -21,13 +21,13 @@ from py2v.pyfun import TranslationError
 FUNCS = ('_reparse_raw_base', '_reparse_raw_stmtlike', '_reparse_raw')
 
 # receivers that denote scratch objects (mutating them does not touch the live tree)
-SCRATCH = {'copy_root', 'copy', 'copya', 'copy_lines', 'a'}          # `a` is only used as loop variable over walk(copy.a) / the copy path
-LIVE = {'self', 'root', 'stmtlike', 'stmtlikea', 'parent'}
+SCRATCH = {'copy_root', 'copy', 'copya', 'copy_lines', 'a', 'copy_parent', 'copy_parenta'}          # `a` is only used as loop variable over walk(copy.a) / the copy path
+LIVE = {'self', 'root', 'stmtlike', 'stmtlikea', 'parent', 'parenta'}
 
 PURE_CALLS = {'FST', 'bistr', 'len', 'getattr', 'isinstance', 'walk', 'parent_stmtlike', 'is_elif', '_loc_block_header_end', '_get_block_indent', 'c2b', 'strip', 'lstrip',
-              'startswith', 'index', 'next', 'bool', 'child_path', 'Pass', '_code_as_lines', 'child_from_path', 'join'}
+              'startswith', 'index', 'next', 'bool', 'child_path', 'Pass', '_code_as_lines', 'child_from_path', 'join', 'compare_asts', 'zip', 'parents', 'endswith'}
 RAISE_CALLS = {'fromsrc', 'parse_match_case', 'parse_ExceptHandler'}
-MUT_METHODS = {'_put_src', '_set_ast', '_touchall', '_set_end_pos', '_unmake_fst_tree', 'set', 'append'}   # AMut or ACopy by receiver
+MUT_METHODS = {'_put_src', '_set_ast', '_touchall', '_touch', '_set_end_pos', '_unmake_fst_tree', 'set', 'append'}   # AMut or ACopy by receiver
 SETATTR = 'setattr'
 
 
